@@ -280,7 +280,7 @@ func (f *c17Folder) fold(s *gen.Stream, depth int) {
 func TestC17(t *testing.T) {
 	st := newStats("C17")
 	defer st.Write()
-	_, nsh := shard()
+	shFwd, nsh := shard()
 	n := 300000
 	if thorough() {
 		n = 6000000
@@ -461,6 +461,55 @@ func TestC17(t *testing.T) {
 	}
 	runRapid(t, n/3, fwd)
 
+	// chains of aliases at the third word of case and for (behind a head that
+	// ends in a blank, so that the word is examined under every reading)
+	{
+		k := 0
+		for _, tpl := range []struct{ head, third, rest, text string }{
+			{"case w ", "in", " x) a;; esac", "case w in x) a;; esac"},
+			{"case w ", "in x) a;; esac", "", "case w in x) a;; esac"},
+			{"for i ", "in", " a b; do c; done", "for i in a b; do c; done"},
+			{"for i ", "do", " c; done", "for i do c; done"},
+			{"for i ", "in a; do c; done", "", "for i in a; do c; done"},
+			{"case $v ", "in", "\n(x|y) a;;\nesac", "case $v in\n(x|y) a;;\nesac"},
+		} {
+			for depth := 1; depth <= 3; depth++ {
+				for blanks := 0; blanks < 1<<depth; blanks++ {
+					k++
+					if k%nsh != shFwd {
+						continue
+					}
+					al := map[string]string{"H": tpl.head}
+					// t1 -> t2 -> ... -> the third word; the rest of the command is the
+					// tail of the outermost value (or of the source)
+					for d := 1; d <= depth; d++ {
+						v := fmt.Sprintf("t%d", d+1)
+						if d == depth {
+							v = tpl.third
+						}
+						if blanks>>(d-1)&1 == 1 && d != depth {
+							v += " "
+						}
+						al[fmt.Sprintf("t%d", d)] = v
+					}
+					src := "H t1" + tpl.rest + "\n"
+					if k%2 == 0 && tpl.rest != "" {
+						// the rest of the command inside the outermost value
+						al["t1"] = strings.TrimRight(al["t1"], " ") + tpl.rest
+						src = "H t1\n"
+					}
+					c := c17Fwd{Src: src, Aliases: al, Unfolded: tpl.text + "\n"}
+					if err := checkC17Fwd(c); err != nil {
+						fail(t, "C17", "forward", c, "%v", err)
+					}
+					st.EvalN(1, 1)
+					st.Class("alias_chain_at_the_third_word_of_case_or_for")
+				}
+			}
+		}
+		st.Note("alias chains of depth 1-3 (with and without trailing blanks on the way) that end in the third word of a case or for command (in, do, or in together with the rest of the command), behind a head alias that ends in a blank")
+	}
+
 	// an alias that only names another alias
 	ind := func(rt *rapid.T) {
 		names := []string{"ll", "la", "l", "both", "ls", "e", "ll-a", ".."}
@@ -495,6 +544,21 @@ func TestC17(t *testing.T) {
 		}
 		if z == 0 {
 			return
+		}
+		// values with a here-document and its body, followed by more commands
+		if rapid.IntRange(0, 2).Draw(rt, "heredoc_value") == 0 {
+			hn := rapid.SampledFrom([]string{"h", "hh"}).Draw(rt, "hname")
+			tail := c17GenFrag(rt, names, false)
+			tail.Comment = ""
+			c.Aliases[hn] = rapid.SampledFrom([]string{"cat <<E\nbody\nE\n", "cat <<-E | x\n\tb $v\n\tE\n", "a <<A <<'B'\n1\nA\n2\nB\n"}).Draw(rt, "hval") + tail.text() + rapid.SampledFrom([]string{"", " ", "\n"}).Draw(rt, "htail")
+			bc := c17Brace{Src: hn + rapid.SampledFrom([]string{"", "; e2", " | e3"}).Draw(rt, "hafter"), Aliases: c.Aliases}
+			jr.begin("C17", "brace", bc)
+			err := checkC17Brace(bc)
+			jr.end()
+			if err != nil && !strings.HasPrefix(err.Error(), "harness:") {
+				fail(rt, "C17", "brace", bc, "%v", err)
+			}
+			st.Class("value_with_heredoc_body_at_top_level_and_in_braces")
 		}
 		c.Indirect = line.text() + "\n"
 		jr.begin("C17", "indirection", c)
@@ -612,6 +676,63 @@ func checkC17Ind(c c17Ind) error {
 }
 
 func init() { reg("C17", "indirection", checkC17Ind) }
+
+// c17Brace: a line that uses aliases whose values span lines (here-documents
+// with their bodies among them) gives the same commands at top level as
+// inside a brace group: alias text that is still unread goes on after a
+// newline in both places.
+type c17Brace struct {
+	Src     string            `json:"src"` // one line, without its newline
+	Aliases map[string]string `json:"aliases"`
+}
+
+func checkC17Brace(c c17Brace) error {
+	parse := func(src string) ([]ast.Command, error) {
+		env := interp.NewExecEnv("sh")
+		for k, v := range c.Aliases {
+			env.Aliases[k] = v
+		}
+		type res struct {
+			cmds []ast.Command
+			err  error
+		}
+		done := make(chan res, 1)
+		go func() {
+			cmds, _, err := parser.ParseCommands(env, "c17", src)
+			done <- res{cmds, err}
+		}()
+		select {
+		case r := <-done:
+			return r.cmds, r.err
+		case <-time.After(30 * time.Second):
+			return nil, fmt.Errorf("alias substitution does not terminate within 30s")
+		}
+	}
+	top, terr := parse(c.Src + "\n")
+	in, ierr := parse("{ " + c.Src + "\n}\n")
+	if terr != nil || ierr != nil {
+		// (text that is not a list of complete commands can close the group
+		// early or fail in one place only: nothing to compare)
+		return nil
+	}
+	var inner []ast.Command
+	if len(in) == 1 {
+		if cm, ok := in[0].(*ast.Cmd); ok {
+			if g, ok := cm.Expr.(*ast.Group); ok {
+				inner = g.List
+			}
+		}
+	}
+	if inner == nil {
+		return fmt.Errorf("harness: the brace group did not come back as one\nsrc: %q", c.Src)
+	}
+	if g, w := strings.Join(oracle.Commands(top, oracle.Sep), " ;; "), strings.Join(oracle.Commands(inner, oracle.Sep), " ;; "); g != w {
+		return fmt.Errorf("the commands at top level differ from those inside a brace group\nsrc: %q\naliases: %q\ntop:    %s\ninside: %s", c.Src, c.Aliases, g, w)
+	}
+	return nil
+}
+
+func init() { reg("C17", "brace", checkC17Brace) }
 
 // c17W is a word: Text as written; Name is the alias name it may stand for
 // ("" for quoted spellings, options, assignments).
